@@ -357,6 +357,22 @@ theorem tryIntoScalar_refines (m : Matrix α) (h : m.Inv) :
     m.tryIntoScalar = .ok (Rows.tryIntoScalar (abs m)) :=
   tryIntoScalar_spec m h
 
+/-- `row_iter(r)` yields row `r` of the list of rows and panics when there is no such row. -/
+theorem rowIter_refines (m : Matrix α) (h : m.Inv) (r : Nat) :
+    m.rowIter r = Rows.rowAt (abs m) r :=
+  rowIter_spec m h r
+
+/-- `column_iter(c)` yields column `c` (top to bottom) and panics when there is no such column. -/
+theorem columnIter_refines (m : Matrix α) (h : m.Inv) (c : Nat) :
+    m.columnIter c = Rows.columnAt (abs m) c :=
+  columnIter_spec m h c
+
+/-- `diagonal_iter()` yields the cells `(i, i)`, for square and non-square matrices, and never
+    panics; in particular none of the unchecked accesses of the three getters leaves the storage. -/
+theorem diagonalIter_refines (m : Matrix α) (h : m.Inv) :
+    m.diagonalIter = .ok (Rows.diagonal (abs m)) :=
+  diagonalIter_spec m h
+
 /-! ### the list-of-rows operations are the obvious ones -/
 
 /-- transposition of a well-formed list of rows exchanges the coordinates of every cell -/
